@@ -353,6 +353,14 @@ def seq_method(run, s, attr, args, kwargs, node):
     if attr == "append":
         v = run.coerce(args[0], ty.elem)
         new = z3.Concat(t, z3.Unit(v.t))
+        if not run.spec:
+            # consequences of the sequence theory, stated explicitly (the solvers are slow at deriving them under many
+            # other constraints): length, last element, prefix unchanged
+            kk = z3.FreshConst(z3.IntSort(), "ak")
+            for fact in (z3.Length(new) == z3.Length(t) + 1, new[z3.Length(t)] == v.t,
+                         z3.ForAll([kk], z3.Implies(z3.And(0 <= kk, kk < z3.Length(t)), new[kk] == t[kk]))):
+                run.pc.append(fact)
+                run.solver_add(fact)
         if ty.elem is TStr and not run.spec:
             # "".join(xs + [x]) == "".join(xs) + x   (instance of the defining equation of str.join, A-PY)
             e = z3.StringVal("")
